@@ -55,6 +55,10 @@ def cell(c, d, i):
             z.writestr(pre + NAMES[m], BODY[m])
         if c["filler"] == "data0":
             z.writestr(pre + "data/0", b"\x00" * 8)
+        elif c["filler"] == "mar":
+            z.writestr("MAR-INF/MANIFEST.json", "{}")
+            z.writestr("model.pt", pickle.dumps({"w": 1}, 2))
+            z.writestr("handler.py", "print(1)\n")
     raw = buf.getvalue()
     if c["trailer"] == "pickle":
         raw += pickle.dumps({"t": 1}, 2)
